@@ -8,6 +8,8 @@
 (***************************************************************************)
 EXTENDS CGSem, CGLint
 
+RECURSIVE TFISetTx(_,_)
+TFISetTx(c, S) == LET P == S \cup UNION {FiSet(c, i) : i \in S} IN IF P = S THEN S ELSE TFISetTx(c, P)
 Machinery(c) == (IF WellFormedRec(c) THEN {} ELSE {"MACHINERY:malformed_record"})
                 \cup (IF c.acyc /\ ~IsTopo(c) THEN {"MACHINERY:not_topological"} ELSE {})
 
@@ -230,4 +232,101 @@ Judge_sequential_unroll(e) ==
                          \cup (IF ~e.add_flop_outputs THEN {} ELSE
                                UNION {{"flop_data_at_step:" \o b \o "@" \o ToString(t - 1) :
                                    t \in {s \in 1..e.n : vuc[Idx(uc, MapOf(e, Pfx(b, e.d))[s])] # run[s][Idx(c, Pin(b, e.d))]}} : b \in insts})))
+
+(* ---- C11: sensitivity analyses ---- *)
+\* truth tables of all nodes of c when node n is inverted (n's own computed value complemented, downstream re-evaluated)
+EvalFlipNode(c, U, fv, n) == LET v == Eval(c, U, fv) IN Eval(c, U, (n :> KNot(U, v[n])) @@ fv)
+\* truth tables when the free signal s (a node index) is complemented
+EvalFlipInput(c, U, fv, s) == Eval(c, U, (s :> KNot(U, fv[s])) @@ fv)
+RECURSIVE UnionDiff(_,_,_,_)
+UnionDiff(v, w, S, acc) == IF S = {} THEN acc ELSE LET i == CHOOSE x \in S : TRUE IN
+                           UnionDiff(v, w, S \ {i}, acc \cup SymDiff(v[i].one, w[i].one))
+\* c evaluated over the universe of another circuit r: free signals of c take the value of the same-named node of r if it
+\* exists (else 0: such inputs are outside every cone that matters)
+FvFrom(c, r, vr) == [i \in FreeNodes(c) |-> IF HasName(r, c.names[i]) THEN vr[Idx(r, c.names[i])] ELSE K0]
+
+(* sensitization_transform(c, n, endpoints): e.c, e.node (name), e.e_given, e.E (names), e.m *)
+Judge_sensitization_transform(e) ==
+  IF e.exc # "" THEN Raised(e) ELSE
+  LET c == e.c  m == e.m
+      n == Idx(c, e.node)
+      E == IF e.e_given THEN {Idx(c, x) : x \in Range(e.E)} ELSE Outputs(c)
+  IN Machinery(c) \cup Machinery(m)
+     \cup (IF OutputNames(m) = {"sat"} THEN {} ELSE {"outputs_are_not_sat"})
+     \cup (IF InputNames(m) \subseteq InputNames(c) THEN {} ELSE {"inputs_not_from_circuit"})
+     \cup (IF ~(c.acyc /\ m.acyc) \/ NFree(m) > MaxBits \/ ~HasName(m, "sat") \/ FreeNames(m) # InputNames(m)
+           THEN {"MACHINERY:not_evaluable"}
+           ELSE LET U == StdU(m)  vm == EvalStd(m)
+                    fv == FvFrom(c, m, vm)
+                    v == Eval(c, U, fv)
+                    w == EvalFlipNode(c, U, fv, n)
+                IN IF vm[Idx(m, "sat")] = KCol(UnionDiff(v, w, E, {})) THEN {} ELSE {"sat_is_not_sensitization"})
+
+(* props.sensitize(c, n, assumptions on inputs): e.c, e.node, e.assum (seq of <<input name, BOOLEAN>>),
+   e.found, e.val (seq of <<input name, BOOLEAN>>) *)
+Judge_sensitize(e) ==
+  IF e.exc # "" THEN Raised(e) ELSE
+  LET c == e.c
+      n == Idx(c, e.node)
+      U == StdU(c)  fv == StdFv(c)
+      v == Eval(c, U, fv)
+      w == EvalFlipNode(c, U, fv, n)
+      sens == UnionDiff(v, w, Outputs(c), {})
+      HasV(nm, b) == IF b THEN v[Idx(c, nm)].one ELSE U \ v[Idx(c, nm)].one
+      RECURSIVE Meet(_,_,_)
+      Meet(sq, j, acc) == IF j > Len(sq) THEN acc ELSE Meet(sq, j + 1, acc \cap HasV(sq[j][1], sq[j][2]))
+      ok == Meet(e.assum, 1, sens)
+  IN Machinery(c)
+     \cup (IF ~c.acyc \/ NFree(c) > MaxBits THEN {"MACHINERY:not_evaluable"}
+           ELSE IF ~e.found THEN (IF ok = {} THEN {} ELSE {"none_but_sensitizable"})
+           ELSE (IF {e.val[j][1] : j \in 1..Len(e.val)} \subseteq InputNames(c) THEN {} ELSE {"valuation_names"})
+                \cup (IF {e.val[j][1] : j \in 1..Len(e.val)} \subseteq InputNames(c) /\ Meet(e.val, 1, ok) = {}
+                      THEN {"valuation_does_not_sensitize"} ELSE {}))
+
+(* sensitivity_transform(c, n): e.c, e.node, e.sen; dif_out_<s> and sen_out_<o> *)
+RECURSIVE BitsValue(_,_,_,_,_)
+BitsValue(sen, vs, p, o, acc) ==   \* sum over o of 2^o [p in TT(sen_out_o)]
+  IF ~HasName(sen, "sen_out_" \o ToString(o)) THEN acc
+  ELSE BitsValue(sen, vs, p, o + 1, acc + (IF p \in vs[Idx(sen, "sen_out_" \o ToString(o))].one THEN 2^o ELSE 0))
+ConeInputs(c, n) == LET anc == TFISetTx(c, {n}) IN {i \in anc : c.ty[i] \in {"input", "bb_output"}}
+Judge_sensitivity_transform(e) ==
+  IF e.exc # "" THEN Raised(e) ELSE
+  LET c == e.c  sen == e.sen
+      n == Idx(c, e.node)
+      sp == ConeInputs(c, n)
+  IN Machinery(c) \cup Machinery(sen)
+     \cup (IF InputNames(sen) = NamesOf(c, sp) THEN {} ELSE {"inputs_are_not_the_cone_startpoints"})
+     \cup (IF ~(c.acyc /\ sen.acyc) \/ NFree(sen) > MaxBits \/ FreeNames(sen) # InputNames(sen) \/ InputNames(sen) # NamesOf(c, sp)
+           THEN {"MACHINERY:not_evaluable"}
+           ELSE LET U == StdU(sen)  vs == EvalStd(sen)
+                    fv == FvFrom(c, sen, vs)
+                    v == Eval(c, U, fv)
+                    dif == [s \in sp |-> SymDiff(v[n].one, EvalFlipInput(c, U, fv, s)[n].one)]
+                IN {"dif_out_missing:" \o c.names[s] : s \in {x \in sp : ~HasName(sen, "dif_out_" \o c.names[x])}}
+                   \cup {"dif_out_wrong:" \o c.names[s] : s \in {x \in sp : HasName(sen, "dif_out_" \o c.names[x])
+                                                                     /\ vs[Idx(sen, "dif_out_" \o c.names[x])] # KCol(dif[x])}}
+                   \cup (IF \A p \in U : BitsValue(sen, vs, p, 0, 0) = Cardinality({s \in sp : p \in dif[s]})
+                         THEN {} ELSE {"sen_out_is_not_the_count"}))
+
+(* props.sensitivity / influence / avg_sensitivity: e.c, e.node, e.sens (int), e.infl (seq of <<input name, num, den>>),
+   e.avg_num, e.avg_den *)
+Judge_sensitivity_props(e) ==
+  IF e.exc # "" THEN Raised(e) ELSE
+  LET c == e.c
+      n == Idx(c, e.node)
+      sp == ConeInputs(c, n)
+      k == NFree(c)
+      U == StdU(c)  fv == StdFv(c)
+      v == Eval(c, U, fv)
+      dif == [s \in sp |-> SymDiff(v[n].one, EvalFlipInput(c, U, fv, s)[n].one)]
+      sensAt(p) == Cardinality({s \in sp : p \in dif[s]})
+      maxSens == Max({sensAt(p) : p \in U})
+      total == LET RECURSIVE Sum(_) Sum(S) == IF S = {} THEN 0 ELSE LET s == CHOOSE x \in S : TRUE IN Cardinality(dif[s]) + Sum(S \ {s}) IN Sum(sp)
+  IN Machinery(c)
+     \cup (IF ~c.acyc \/ k > MaxBits THEN {"MACHINERY:not_evaluable"}
+           ELSE (IF e.sens = maxSens THEN {} ELSE {"sensitivity"})
+                \cup (IF {e.infl[j][1] : j \in 1..Len(e.infl)} = NamesOf(c, sp) THEN {} ELSE {"influence_keys"})
+                \cup {"influence:" \o e.infl[j][1] : j \in {x \in 1..Len(e.infl) : HasName(c, e.infl[x][1]) /\ Idx(c, e.infl[x][1]) \in sp
+                                                             /\ e.infl[x][2] * (2^k) # e.infl[x][3] * Cardinality(dif[Idx(c, e.infl[x][1])])}}
+                \cup (IF e.avg_num * (2^k) = e.avg_den * total THEN {} ELSE {"avg_sensitivity"}))
 =============================================================================
